@@ -1,6 +1,7 @@
 (* Proofs/WriteFull.v — the request kinds of C02 whose composition with the target is STATED (in
    Props/C02.v, part of C02_full) but not yet proved: BOOL-array aligned ranges, one BOOL-array
-   element, whole structures given as a dict.  Definitions of what the upload builds for a
+   element, one-element BOOL slices (all proved in Proofs/WriteBools.v); whole structures given as a dict are stated
+   and proved in Proofs/WriteStruct.v.  Definitions of what the upload builds for a
    structure ([wty_of], property C05's image of a template) and of the Python value that denotes a
    reference value ([py_of]), the three statements, and hand checks of each statement on concrete
    inputs by computation (so that what is left open is at least true where it was tried). *)
@@ -93,28 +94,6 @@ Definition stmt_bool_element : Prop :=
   exists ob ab stored,
     mask_bytes o 4 = Ok ob /\ mask_bytes a 4 = Ok ab
     /\ svc_rmw p m img l (rmw_data 4 ob ab) = (m_ref, mr_ok [], [EvApp 1 [inst; off + 4 * (start / 32); 78] stored]).
-
-(* ---- (c) a whole structure (not a string) given as a dict of its visible members, nested values likewise *)
-Definition stmt_struct : Prop :=
-  forall p m r inst off tid dims avail t rv m_ref img id tag ty inst_id ui seq path,
-  wf_project p = true ->
-  resolve p r = Some (PlData inst off (BStruct tid) dims avail) -> r_bit r = None -> r_count r = None ->
-  mem_get m inst = Some img ->
-  find_template (p_templates p) tid = Some t -> string_shape t = None ->
-  wty_of (depth_fuel p) p (BStruct tid) = Some ty ->
-  ref_write p m r rv = Some m_ref ->
-  1 <= avail -> 0 <= seq < 65536 ->
-  let info := mkInfo true (t_name t) ty (t_handle t) inst_id in
-  let q := mkParsed id false tag None 1 None info (py_of rv) in
-  let l := mkWLoc inst off (BStruct tid) dims avail None in
-  path_of tag info ui = Ok (Some path) ->
-  exists data pk pk1,
-    encode_value q = Ok (data, 1)
-    /\ new_write_packet KWrite seq tag 1 info id ui 0 data = Ok pk
-    /\ build_message pk = Ok pk1
-    /\ k_message pk1 = le_enc 2 seq ++ [77] ++ path ++ write_data (160 :: 2 :: le_enc 2 (t_handle t)) 1 data
-    /\ svc_write p m img l (write_data (160 :: 2 :: le_enc 2 (t_handle t)) 1 data)
-       = (m_ref, mr_ok [], [EvApp 1 [inst; off; 77] data]).
 
 (* ---- (d) a one-element slice of a BOOL array, `arr[i]{1}`, written with the one-item list [x]:
    planned as a bit write; set_bit takes the item of a one-item list *)
